@@ -65,6 +65,18 @@ type Contract struct {
 	MapLoop bool            // map-range unit (maprange.go)
 	ResVars []string
 	PreDecls []ast.Stmt
+	LitAsserts []*LitAssert
+}
+
+// LitAssert (`litassert TYPE N EXPR`): an assertion on the N-th composite literal of type TYPE (as written) in the
+// function, evaluated where the literal is built; EXPR names the literal's value as `lit` and may use everything in
+// scope at that statement.
+type LitAssert struct {
+	Type   string
+	Ord    int
+	Clause *Clause
+	Node   *ast.CompositeLit
+	LitID  *ast.Ident
 }
 
 func (c *Contract) primary() string {
@@ -285,6 +297,10 @@ func parseContractsData(data []byte, file string, pkgPath string) ([]*Contract, 
 			cur.Requires = append(cur.Requires, mk("requires"))
 		case "ensures":
 			cur.Ensures = append(cur.Ensures, mk("ensures"))
+		case "axiom":
+			// a postcondition of a function declared `opt function yes` that callers may also use universally
+			// quantified over the integer parameters (it is proved like any postcondition in the function's own unit)
+			cur.Ensures = append(cur.Ensures, mk("axiom"))
 		case "assume":
 			cur.Assumes = append(cur.Assumes, mk("assume"))
 		case "panics":
@@ -343,6 +359,13 @@ func parseContractsData(data []byte, file string, pkgPath string) ([]*Contract, 
 				return nil, fmt.Errorf("%s:%d: %v", file, ln+1, err)
 			}
 			parsedFolds[pkgPath] = append(parsedFolds[pkgPath], fd)
+		case "litassert":
+			f := strings.SplitN(rest, " ", 3)
+			n, err := strconv.Atoi(f[1])
+			if len(f) != 3 || err != nil {
+				return nil, fmt.Errorf("%s:%d: litassert TYPE N EXPR", file, ln+1)
+			}
+			cur.LitAsserts = append(cur.LitAsserts, &LitAssert{Type: f[0], Ord: n, Clause: &Clause{Kind: "litassert", Prop: prop, Text: f[2], Line: ln + 1}})
 		case "cases":
 			// proof by cases for the loop's preservation obligations: `cases c1; c2; ...` is one dimension (the implicit
 			// last case is "none of them"); several `cases` lines multiply. Conditions are evaluated at the start of the body.
@@ -741,6 +764,12 @@ func (pk *Pkg) injectAndRecheck(w *World) error {
 			nb = append(nb, postBlk)
 		}
 		*body = nb
+		// literal assertions: `{ var lit T; _ = lit; _ = EXPR }` is injected right before the statement that holds the literal
+		for _, la := range c.LitAsserts {
+			if err := pk.injectLitAssert(c, fd, la); err != nil {
+				return err
+			}
+		}
 		// loops
 		var loops []ast.Stmt
 		if label == "" {
